@@ -25,52 +25,56 @@ CONSTANTS MaxChunks, ChunkSizes, Caps, Profiles
 
 VARIABLES chunks, cap, failAt, profile,     \* the case
           unchecked,                        \* C profiles: indices of chunks written without testing the result
+          bounds,                           \* C profiles: indices of the chunks that end an input file's listing
           i, buf, accepted, bad, exit, diag, st
-vars == <<chunks, cap, failAt, profile, unchecked, i, buf, accepted, bad, exit, diag, st>>
+vars == <<chunks, cap, failAt, profile, unchecked, bounds, i, buf, accepted, bad, exit, diag, st>>
 IsC == profile \in {"c:flush", "c:checked"}
 Sum(s) == LET F[n \in 0..Len(s)] == IF n = 0 THEN 0 ELSE F[n - 1] + s[n] IN F[Len(s)]
 Init == /\ chunks \in UNION {[1..k -> ChunkSizes] : k \in 0..MaxChunks}
         /\ cap \in Caps /\ failAt \in 0..(Sum(chunks) + 1) /\ profile \in Profiles
         /\ unchecked \in IF profile = "c:flush" THEN SUBSET (1..Len(chunks)) ELSE {{}}
+        /\ bounds \in IF profile \in {"c:flush", "c:checked"} THEN {B \cup {Len(chunks)} : B \in SUBSET (1..Len(chunks))} ELSE {{}}
         /\ i = 1 /\ buf = 0 /\ accepted = 0 /\ bad = FALSE /\ exit = 99 /\ diag = FALSE /\ st = "writing"
 \* the device takes all of n bytes or (at the limit) only part and then fails
 Flush(n) == IF accepted + n <= failAt THEN [acc |-> accepted + n, ok |-> TRUE]
             ELSE [acc |-> failAt, ok |-> FALSE]
 \* C stdio: the full buffer is written out first and the new data then buffered; on failure both are lost, the
-\* error indicator is set, and a tested call makes the program stop with a diagnostic and exit status 1
+\* error indicator is set, and a tested call abandons the current input file with a diagnostic; the failure is
+\* remembered (exit status 1) and the next input file is listed
+NextFile(k) == (CHOOSE b \in bounds : b >= k /\ \A c \in bounds : c >= k => b <= c) + 1
 CPut == /\ st = "writing" /\ i <= Len(chunks) /\ IsC
         /\ IF buf + chunks[i] > cap
            THEN LET f == Flush(buf) IN
                 /\ accepted' = f.acc
                 /\ IF f.ok THEN buf' = chunks[i] /\ UNCHANGED <<bad, exit, diag, st>> /\ i' = i + 1
-                   ELSE /\ buf' = 0 /\ bad' = TRUE
-                        /\ IF i \in unchecked THEN i' = i + 1 /\ UNCHANGED <<exit, diag, st>>
-                           ELSE i' = Len(chunks) + 1 /\ exit' = 1 /\ diag' = TRUE /\ st' = "stopped"
+                   ELSE /\ buf' = 0 /\ bad' = TRUE /\ UNCHANGED st
+                        /\ IF i \in unchecked THEN i' = i + 1 /\ UNCHANGED <<exit, diag>>
+                           ELSE i' = NextFile(i) /\ exit' = 1 /\ diag' = TRUE
            ELSE buf' = buf + chunks[i] /\ i' = i + 1 /\ UNCHANGED <<accepted, bad, exit, diag, st>>
-        /\ UNCHANGED <<chunks, cap, failAt, profile, unchecked>>
+        /\ UNCHANGED <<chunks, cap, failAt, profile, unchecked, bounds>>
 \* main(): fflush(stdout) and only its own result
-CFinish == /\ st \in {"writing", "stopped"} /\ i > Len(chunks) /\ IsC
+CFinish == /\ st = "writing" /\ i > Len(chunks) /\ IsC
            /\ LET f == Flush(buf) IN
               /\ accepted' = f.acc /\ buf' = 0 /\ bad' = (bad \/ ~f.ok)
-              /\ exit' = (IF f.ok /\ st = "writing" THEN 0 ELSE 1)
+              /\ exit' = (IF f.ok /\ exit = 99 THEN 0 ELSE 1)
               /\ diag' = (diag \/ ~f.ok)
-           /\ st' = "exiting" /\ UNCHANGED <<chunks, cap, failAt, profile, unchecked, i>>
+           /\ st' = "exiting" /\ UNCHANGED <<chunks, cap, failAt, profile, unchecked, bounds, i>>
 Put == /\ st = "writing" /\ i <= Len(chunks) /\ ~IsC
        /\ IF bad THEN UNCHANGED <<buf, accepted, bad>>                   \* writes to a bad stream are dropped
           ELSE IF buf + chunks[i] > cap
           THEN LET f == Flush(buf + chunks[i]) IN accepted' = f.acc /\ bad' = ~f.ok /\ buf' = 0
           ELSE buf' = buf + chunks[i] /\ UNCHANGED <<accepted, bad>>
-       /\ i' = i + 1 /\ UNCHANGED <<chunks, cap, failAt, profile, unchecked, exit, diag, st>>
+       /\ i' = i + 1 /\ UNCHANGED <<chunks, cap, failAt, profile, unchecked, bounds, exit, diag, st>>
 Finish == /\ st = "writing" /\ i > Len(chunks) /\ ~IsC
           /\ IF profile = "none" THEN exit' = 0 /\ diag' = FALSE /\ UNCHANGED <<buf, accepted, bad>>
              ELSE IF profile = "good" THEN exit' = (IF bad THEN 1 ELSE 0) /\ diag' = FALSE /\ UNCHANGED <<buf, accepted, bad>>
              ELSE LET f == IF bad THEN [acc |-> accepted, ok |-> FALSE] ELSE Flush(buf) IN
                   accepted' = f.acc /\ bad' = ~f.ok /\ buf' = 0 /\ exit' = (IF f.ok THEN 0 ELSE 1) /\ diag' = ~f.ok
-          /\ st' = "exiting" /\ UNCHANGED <<chunks, cap, failAt, profile, unchecked, i>>
+          /\ st' = "exiting" /\ UNCHANGED <<chunks, cap, failAt, profile, unchecked, bounds, i>>
 \* the C/C++ runtime flushes what is still buffered at exit; its failure cannot change the exit status any more
 AtExit == /\ st = "exiting"
           /\ LET f == IF bad THEN [acc |-> accepted, ok |-> FALSE] ELSE Flush(buf) IN accepted' = f.acc /\ bad' = ~f.ok /\ buf' = 0
-          /\ st' = "done" /\ UNCHANGED <<chunks, cap, failAt, profile, unchecked, i, exit, diag>>
+          /\ st' = "done" /\ UNCHANGED <<chunks, cap, failAt, profile, unchecked, bounds, i, exit, diag>>
 Next == Put \/ Finish \/ CPut \/ CFinish \/ AtExit
 Spec == Init /\ [][Next]_vars
 
